@@ -105,10 +105,9 @@ DOMAINS = {
         "git": dom(ENTRIES=["load_git"], OBJSPECS=["name", "dotted"], RESOLVES=["off", "true"], TOPS=["py", "pyi", "so", "ns", "sofile", "missing"],
                    KIDSA=["py", "so", "xc", "missing"], KIDSB=["so", "missing"], TOPFAULTS=["none", "raises"], KIDFAULTS=["none", "exit"],
                    EXTSTYLES=["none", "name"], EXTKINDS=["sofile"], EXTFAULTS=["none"]),
-        "attrs": dom(ENTRIES=["attrs"], OBJSPECS=["name", "dotted"], RESOLVES=["off", "true", "none"], STUBMODES=["none", "inpkg"],
-                     TOPS=["py", "pyi", "so", "ns", "sofile", "zip", "missing"], KIDSA=["py", "so", "xc", "missing"], KIDSB=["so", "missing"],
-                     TOPFAULTS=["none", "raises"], KIDFAULTS=["none", "exit"], EXTSTYLES=["none", "name", "star"], EXTPRIVATES=[False, True],
-                     EXTKINDS=["py", "sofile"], EXTFAULTS=["none", "raises"]),
+        "attrs": dom(ENTRIES=["attrs"], OBJSPECS=["name", "dotted"], RESOLVES=["off", "true"], LAYOUTS=["flat"],
+                     TOPS=["py", "pyi", "so", "ns", "sofile", "zip", "missing"], KIDSA=["py", "so", "xc", "missing"], KIDSB=["missing"],
+                     TOPFAULTS=["none", "raises"], KIDFAULTS=["none", "exit"], EXTSTYLES=["none", "name", "star"], EXTKINDS=["py", "sofile"]),
         "onpath": dom(ONPATHS=[True], ENTRIES=["load", "attrs"], PATHMUTS=["none", "inplace", "rebind"], TOPS=["py", "so", "ns", "sofile", "zip"],
                       KIDSA=["so", "py", "missing"], KIDSB=["so", "missing"], TOPFAULTS=["none", "exit", "raises"], KIDFAULTS=["none", "raises"]),
         "siblings": dom(KIDSA=["both", "py", "pyi", "so", "missing"], KIDSB=["both", "so", "missing"], TOPS=["py", "pyi", "ns", "so"],
